@@ -139,7 +139,9 @@ Record drv := mkDrv {
   d_amb : bool;             (* an order-dependent choice was met *)
   d_bad : bool;             (* the script left the model's domain (e.g. touches a subscriber whose
                                Subscribe has not returned) *)
-  d_obs : list (Z * oev)
+  d_obs : list (Z * oev);
+  d_e2e : bool              (* [e2e_okb] (after every step that left the lock free) and
+                               [close_final_okb] held throughout (they must: Proofs_e2e) *)
 }.
 
 (* OAdvBatch: the advance and the Batch call with NO internal step in between *)
@@ -177,17 +179,18 @@ Definition races_timer (s0 : st) (o : op) : bool :=
 Definition drive_step (vr : variant) (iv : Z) (d : drv) (n : Z) (o : op) : drv :=
   let s0 := d_st d in
   match (if op_ok o then env_step vr iv s0 n o else None) with
-  | None => mkDrv s0 (d_close d) (d_amb d) true (d_obs d)
+  | None => mkDrv s0 (d_close d) (d_amb d) true (d_obs d) (d_e2e d)
   | Some s_env =>
       let close_id := match o, d_close d with OClose, None => Some n | _, x => x end in
       let '(s1, amb) := quiesce_amb (measure s_env) vr iv s_env (d_amb d || races_timer s0 o) false in
       mkDrv s1 close_id amb (d_bad d)
             (d_obs d ++ sub_events n (subs s0) (subs s1) ++ done_events n o close_id s0 s_env s1)
+            (d_e2e d && match lock s1 with Free => e2e_okb s1 | _ => true end && close_final_okb s1)
   end.
 
 Definition drive (vr : variant) (iv : Z) (sc : list op) : drv :=
   fold_left (fun d no => drive_step vr iv d (fst no) (snd no)) (zindex sc)
-            (mkDrv init None false false []).
+            (mkDrv init None false false [] true).
 
 Definition oev_eqb (a b : oev) : bool :=
   match a, b with
@@ -215,6 +218,7 @@ Definition check_case (c : case) : Z :=
       if negb ((0 <? iv)%Z && oracle iv sc ob) then 2
       else let d := drive Fixed iv sc in
            if d_bad d then 1
+           else if negb (d_e2e d) then 1
            else if d_amb d then 0
            else if obs_eqb (d_obs d) ob then 0 else 1
   end.
